@@ -285,6 +285,17 @@ def load_shapes() -> List[Shape]:
         {"f1": [call("f2"), call("f3")], "f2": [], "f3": [load("/t/p2"), load("/t/p2")]},
         reads={"f2": ["v1"], "f3": ["v2"]}, vtype={"v1": "int", "v2": "int"},
         dpath={"f2": "/t/p2", "f3": "/t/p3"}, tags=["load-same-path-twice", "load-in-kept", "producer-datafun"]))
+    # one producer function kept under two paths; the reader loads the second one (after / before it is produced)
+    S.append(Shape(
+        "ld_dup", "f1",
+        {"f1": [keep("/dd/a", "f2"), keep("/dd/b", "f2"), call("f3")], "f2": [], "f3": [load("/dd/b")]},
+        reads={"f2": ["v1"], "f3": ["v2"]}, vtype={"v1": "int", "v2": "int"},
+        dpath={"f3": "/dd/p3"}, tags=["producer-kept-under-two-paths", "load-in-kept", "producer-keepcall"]))
+    S.append(Shape(
+        "ld_dup_before", "f1",
+        {"f1": [keep("/de/a", "f2"), call("f3"), keep("/de/b", "f2")], "f2": [], "f3": [load("/de/b")]},
+        reads={"f2": ["v1"], "f3": ["v2"]}, vtype={"v1": "int", "v2": "int"},
+        tags=["producer-kept-under-two-paths", "load-before-producer", "load-nested-helper"]))
     # the producer is kept INSIDE a kept root (root 1); the reader is a separate pipeline (root 2)
     S.append(Shape(
         "ld_inner_producer", "f1",
@@ -375,6 +386,18 @@ def illformed_shapes(tier: str = "quick") -> List[Shape]:
             funs["t1"] = []
             mk("ne_%s_%d" % (via, depth), names[0], funs, ["nested-eval", "via:" + via, "depth:%d" % depth])
     return S
+
+
+def tworoot_shapes() -> List[Shape]:
+    """two independent pipelines in one program (two roots): what one evaluation leaves behind in
+    the process must not leak into the evaluation of the other one"""
+    return [Shape(
+        "pipes2", "f1",
+        {"f1": [keep("/pa/sub", "f2"), call("f3")], "f2": [], "f3": [],
+         "g1": [keep("/pb/sub", "g2"), call("g3")], "g2": [], "g3": []},
+        reads={"f2": ["v1"], "f3": ["v2"], "g2": ["v3"]},
+        vtype={"v1": "int", "v2": "int", "v3": "int"},
+        dpath={"g3": "/pb/g3"}, root2="g1", tags=["two-pipelines"])]
 
 
 def graph_shapes() -> List[Shape]:
